@@ -308,6 +308,11 @@ def run(ctx, C07):
         # read_bytes in the middle of the token stream: model = implementation (chunk-dependent by one blank, see audit)
         j = rng.randrange(0, 5)
         addop(rng.choice(["len", "slice"]), n + 9, rng.choice(scheds), inp, ",".join(["n"] * j + ["b%d" % rng.randrange(0, 4), "N"]))
+    # the witnesses of Props/C07_ops.v (C07_read_bytes_after_token_refuted, C07_mid_position_refuted) on the real code: model = implementation
+    w = b"abcdefghij klmnopqrst"
+    wit = ["tr.ops\tlen\t15\t%s\t%s\tn,b1" % (sched_str([1] * 21), hexs(w)), "tr.ops\tslice\t0\t-\t%s\tn,b1" % hexs(w),
+           "tr.ops\tlen\t15\t%s\t%s\tn,n,n" % (sched_str([1] * 21), hexs(w)), "tr.ops\tslice\t0\t-\t%s\tn,n,n" % hexs(w)]
+    ctx.correspond("ops_witness", wit)
     o_impl, _ = ctx.correspond("ops", ocases, nontrivial=lambda c, i: ("U:" in i or "Q:" in i or "B:" in i))
     ob = len(o_impl) - len(ocases)
     need_of = {inp: (int(no) if no.isdigit() else None) for inp, no in zip(oin, oneed_out)}
